@@ -305,6 +305,35 @@ def make_variant_inputs(ex):
     open(os.path.join(w, "109_120.w6d"), "w").write("\n".join(l for l in lines if not l.startswith(" 198119")))
 
 
+# ---- weather with explicitly handled oddities in the 2nd and later simulation years (C03): tmin > tmax + 0.5 (swapped by
+# LoadYear, same value pair on several days and different pairs), the edge tmin = tmax + 0.5, tmin slightly above tmax,
+# a missing-value sentinel; the same file is read by several lines of one process
+_ODD = "project=ex1 WeatherFolder=odd fcode=109_120 Altitude=73 Latitude=52.6732 EndDate=12311983 "
+ODD = {
+    "odd1": _ODD + "soilId=075 plotNr=10001 poligonID=29872",
+    "odd2": _ODD + "soilId=160 plotNr=10002 poligonID=29873",
+    "odd3": _ODD + "soilId=075 plotNr=10002 poligonID=30169",
+}
+
+
+def make_odd_weather(ex):
+    w = os.path.join(ex, "weather", "odd"); os.makedirs(w, exist_ok=True)
+    L = open(os.path.join(ex, "weather", "historical", "109_120.csv")).read().split("\n")
+    edits = {"1981-05-10": (2.0, None), "1981-05-11": (2.0, None), "1981-08-01": (0.5, None), "1981-08-02": (0.6, None),
+             "1982-06-15": (3.5, None), "1982-06-16": (0.3, None), "1982-12-31": (1.0, None), "1983-01-01": (1.0, None),
+             "1983-07-07": (2.0, None)}
+    for i, l in enumerate(L):
+        t = l.split(",")
+        if t and t[0] in edits:
+            tmax = float(t[3]) if t[0] not in ("1981-05-10", "1981-05-11", "1983-07-07") else 21.3   # the same pair on three days
+            d = edits[t[0]][0]
+            t[3] = "%.1f" % tmax; t[1] = "%.1f" % (tmax + d); t[2] = "%.1f" % (tmax + d / 2)
+            L[i] = ",".join(t)
+        elif t and t[0] == "1982-03-03":
+            t[5] = "999.9"; L[i] = ",".join(t)       # global radiation missing
+    open(os.path.join(w, "109_120.csv"), "w").write("\n".join(L))
+
+
 class Exec:
     """one execution of the batch binary"""
     def __init__(self):
